@@ -151,6 +151,9 @@ func checkLinearizable(rr *RunResult, timeout time.Duration) (res linResult) {
 			if touchesTTLKey(op.Args) {
 				continue // deadline-carrying keys are judged by ttlReplies (ttl.go)
 			}
+			if touchesNondetKey(op.Args) {
+				continue // random-choice / auto-id commands: only the replicas' agreement is judged (nondet.go)
+			}
 			if hasSelect {
 				find("*")
 				all = append(all, rec{op, []string{"*"}})
